@@ -36,6 +36,10 @@ repeating tests, negating a test (`!=` is reported as `==`, `not in` as `in`).  
 is reported in its *canonical verbose form* (`strip_verbose`: white space and `#` comments outside character classes
 removed, exactly what `re`'s parser skips), so re-indenting it or editing a comment inside it changes nothing either.
 
+When /repo changes a modelled regex on purpose (a `fix:` commit): adapt the scanner in lean/Ccp/Model/*.lean first, let
+the correspondence confirm it, and only then update the literal in lean/Ccp/Props/RxCxx.lean (the literals there are
+maintained by hand — they are "what the scanner was written for", never regenerated).
+
 Anything that cannot be found is raised as an exception: `translate.emit` turns it into a translator PROBLEM (a broken
 obligation), never a silent skip.
 """
